@@ -369,6 +369,12 @@ def run(ctx):
             ctx.handle_cex(rec['name'], 'C14.exclusive.native', None, lambda _m: {'replayed': True, 'detail': 'real routers across a dead-worker window: %s' % bad[:3], 'replay': {'which': 'exclusive', 'pool': [], 'hint': None}}, rec)
     except RuntimeError as e:
         ctx.inconclusive.append('exclusive native battery unavailable: %s' % str(e)[-300:])
+    # premises the inductions above carry through resize and replacement: a supervision event is attributed to the incarnation that died (the actor index is the
+    # inverse of the pool after every resize / death step, so a retired actor's late exit notice cannot hit the new holder of its slot and wipe that worker's
+    # pending keys), and a resize moves no job - the pool slice shared with C15 (its claims are reported under this property when run from here)
+    import C15_pool
+    C15_pool.check(ctx, prog)
+    ctx.bounds['pool_premises'] = 'resize_pool / grow_pool / shrink_pool and Factory::handle_supervisor_evt from every pool shape of the C15 pool slice (pool_size 1..3 of 4 slots)'
 
 
 def replay_file(path):
@@ -382,6 +388,11 @@ def replay_file(path):
             bad += C14_queuer_replay.evaluate(d['replay']['rp'])[0]
         print('native FactoryState steps with the queuer routers:', bad)
         return 1 if bad else 0
+    if d['replay']['which'] == 'pool':
+        import C15_pool_replay
+        r = C15_pool_replay.replay(d['replay']['rp'])
+        print(r['detail'])
+        return 1 if r['replayed'] else 0
     if d['replay']['which'] == 'exclusive':
         import C14_exclusive_replay
         rp = d['replay']
